@@ -45,6 +45,14 @@ THEOREMS = [
     "OllamaVerif.C13.filepath_inverse",
     "OllamaVerif.C13.relpath_accepted",
     "OllamaVerif.C13.legacy_path_injective",
+    "OllamaVerif.C13.N1_bare_roundtrip_witness",
+    "OllamaVerif.C13.legacy_case_twins_witness",
+    "OllamaVerif.C13.digest_re_shape",
+    "OllamaVerif.C13.blob_path_confined_legacy",
+    "OllamaVerif.C13.blob_path_confined_cache",
+    "OllamaVerif.C13.fold_same_path",
+    "OllamaVerif.C13.manifest_path_confined_cache",
+    "OllamaVerif.C13.ext_accepted_fq",
     "OllamaVerif.Tie.C13.first_sets_match",
     "OllamaVerif.Tie.C13.rest_sets_match",
     "OllamaVerif.Tie.C13.length_limits_match",
@@ -133,8 +141,11 @@ def run(ctx):
         env = {"VERIF_N": n, "VERIF_EXH": exh, "VERIF_EXH_PATH": 3 if not ctx.thorough else 4,
                "VERIF_CORPUS": os.path.join(corpus, label + ".txt")}
         if ctx.replay:
-            line = open(ctx.replay_line_file()).read()
-            if OPS_OF[label].isdisjoint(line.split()[:1]):
+            toks = open(ctx.replay_line_file()).read().split()
+            opname = toks[0] if toks else ""
+            if opname == "vpart":   # vpart M … belongs to types/model, vpart N … to names
+                opname = "vpart" + (toks[1] if len(toks) > 1 else "")
+            if opname not in OPS_OF[label]:
                 continue
             env["VERIF_REPLAY"] = ctx.replay_line_file()
         rc, out, outdir = ctx.go_test(pkg, ov(overlay), "^TestVerifC13$", env=env)
@@ -165,8 +176,8 @@ def run(ctx):
 
 
 OPS_OF = {
-    "model": {"mname", "mpath"},
-    "names": {"nname"},
+    "model": {"mname", "mpath", "vpartM"},
+    "names": {"nname", "vpartN"},
     "blob": {"digest", "getfile", "n2p", "mfpath"},
     "server": {"mp", "blobs", "clean", "join"},
     "client": {"ext", "split"},
